@@ -424,6 +424,88 @@ VERIF_HARNESS(h_reset_same_level)
   verif_reach("reset-end");
 }
 
+// pinned histories (depth 3): a node created on the way inherits the level of its DEEPEST EXISTING ANCESTOR, i.e. the
+// most recent set on a prefix - also when several nodes are created at once along a location path, and when that prefix
+// was set (to a level that may differ from the root's) before the deeper nodes existed.  All levels symbolic.
+//   variant 0: set({a},w); set({a,b,c},x)            -> {a,b} (created on the way) has w, {a,b,c} has x
+//   variant 1: set({a},w); object(ctx, {a,b}, "c")    -> {a,b}, {a,b,c} and the object have w; then set({a,b},x) -> x
+//   variant 2: set({a},w); object(ctx,"a"); object(parent,"b"); object(ctx,{a},"c") (the find_child path) -> all w
+//   variant 3: set({a},w); set({a,b},v); object(ctx, {a,b,c}, "d") -> {a,b,c} and {a,b,c,d} have v, {a} keeps w
+VERIF_HARNESS(h_inherit)
+{
+  unsigned const variant = static_cast<unsigned>(verif_param("variant"));
+  setup(); // root level symbolic
+  unsigned const w = fresh_level("w"), x = fresh_level("x"), v = fresh_level("v");
+  unsigned const l = verif_u8("probe_level");
+  verif_assume(l < NONE_LVL);
+  auto const nm = [](char const *const c) { return lg::name{fcppt::string{c}}; };
+  lg::location const la{nm("a")};
+  lg::location const lab{lg::location{nm("a")} / nm("b")};
+  lg::location const lad{lg::location{nm("a")} / nm("d")};
+  lg::location const labc{lg::location{nm("a")} / nm("b") / nm("c")};
+  lg::location const labd{lg::location{nm("a")} / nm("b") / nm("d")};
+  lg::location const labcd{lg::location{nm("a")} / nm("b") / nm("c") / nm("d")};
+  lg::location const lb{nm("b")};
+  lg::context const &cc = *ctx;
+  lg::context_reference const cref{fcppt::make_ref(*ctx)};
+  auto const level_at = [&cc](lg::location const &loc) {
+    unsigned const r = to_int(cc.get(loc));
+    no_lock("no mutex is held after context::get");
+    return r;
+  };
+  auto const follows = [l](lg::object const &o, unsigned const expect, char const *const what_level, char const *const what_enabled) {
+    verif_assert(to_int(o.level()) == expect, what_level);
+    verif_assert(o.enabled(static_cast<lg::level>(l)) == (expect != NONE_LVL && l >= expect), what_enabled);
+  };
+  ctx->set(la, to_optional(w));
+  no_lock("no mutex is held after context::set");
+  verif_assert(level_at(la) == w && level_at(lab) == w, "set({a},w): {a} and everything below reports w");
+  verif_assert(level_at(lb) == root_level && level_at(lg::location{}) == root_level, "set({a},w) leaves the root and {b} alone");
+  if (variant == 0)
+  {
+    ctx->set(labc, to_optional(x));
+    no_lock("no mutex is held after context::set");
+    verif_assert(level_at(lab) == w, "set({a},w); set({a,b,c},x): {a,b}, created on the way, inherits w from {a}");
+    verif_assert(level_at(labc) == x, "set({a},w); set({a,b,c},x): {a,b,c} has x");
+    verif_assert(level_at(labd) == w && level_at(lad) == w && level_at(la) == w, "... {a}, {a,d}, {a,b,d} report w");
+    lg::object const below{cref, lab, lg::parameters_no_function(nm("d"))};
+    follows(below, w, "an object then created at {a,b,d} has w", "... and enabled() follows w");
+  }
+  else if (variant == 1)
+  {
+    lg::object const o{cref, lab, lg::parameters_no_function(nm("c"))};
+    no_lock("no mutex is held after constructing a log object");
+    follows(o, w, "set({a},w); object(ctx,{a,b},c): the object inherits w through the new node {a,b}", "... and enabled() follows w");
+    verif_assert(level_at(lab) == w && level_at(labc) == w, "... {a,b} and {a,b,c}, both created by the constructor, have w");
+    ctx->set(lab, to_optional(x));
+    follows(o, x, "a later set({a,b},x) reaches the object at {a,b,c}", "... and its enabled()");
+    verif_assert(level_at(la) == w, "... and leaves {a} at w");
+  }
+  else if (variant == 2)
+  {
+    lg::object const pa{cref, lg::parameters_no_function(nm("a"))};
+    lg::object const by_parent{pa, lg::parameters_no_function(nm("b"))};
+    lg::object const by_location{cref, la, lg::parameters_no_function(nm("c"))};
+    no_lock("no mutex is held after constructing log objects");
+    follows(pa, w, "object(ctx,a) at the existing node {a} has w", "... enabled()");
+    follows(by_parent, w, "object(parent,b): new node {a,b} inherits w", "... enabled()");
+    follows(by_location, w, "object(ctx,{a},c): new node {a,c} inherits w", "... enabled()");
+    verif_assert(level_at(lab) == w, "get({a,b}) agrees");
+  }
+  else
+  {
+    ctx->set(lab, to_optional(v));
+    lg::object const o{cref, labc, lg::parameters_no_function(nm("d"))};
+    follows(o, v, "set({a},w); set({a,b},v); object(ctx,{a,b,c},d): inherits v from {a,b}, the deepest existing ancestor", "... enabled()");
+    verif_assert(level_at(labc) == v && level_at(labcd) == v, "... {a,b,c} and {a,b,c,d} have v");
+    verif_assert(level_at(la) == w && level_at(lad) == w, "... {a} and {a,d} keep w");
+  }
+  verif_assert(probe_walk > 0 && probe_mutate > 0, "harness: the lock-discipline hooks were hit");
+  verif_out("variant", variant);
+  teardown();
+  verif_reach("inherit-end");
+}
+
 // operation codes: 0 set, 1 get, 2 create object; locations: 0 {} 1 {a} 2 {b} 3 {a,a} 4 {a,b} 5 {b,a} 6 {b,b}
 //@harness h_hist param k=1 param op0=9 param loc0=9 tier=quick loop=40 leak=1
 //@harness h_hist param k=2 param op0=0..2 param loc0=9 tier=quick loop=40 leak=1
@@ -437,3 +519,4 @@ VERIF_HARNESS(h_reset_same_level)
 // objects through the three constructors with sets in between, emission and formatter() text (this line was lost when the
 // thorough list was resized; restored)
 //@harness h_objects param how=0..1 param l0=0..6 tier=quick loop=40 leak=1
+//@harness h_inherit param variant=0..3 tier=quick loop=40 leak=1 validate=12
